@@ -102,6 +102,24 @@ impl SessWorker {
         })
     }
 
+    /// A base context built from scratch (not a clone of the cached one): shares nothing with
+    /// any other session of this worker. Used as the reference for "a copied session evolves
+    /// independently".
+    pub fn fresh_base(&mut self, light: bool) -> Result<Sess, String> {
+        let mut s = Sess::new(self.importer.clone());
+        let code = if light {
+            "use units::si\nuse core::lists\nuse core::strings\nuse core::error\nuse core::functions"
+        } else {
+            "use prelude"
+        };
+        self.importer.set_tag("fresh-base");
+        let o = s.submit(code);
+        if !o.is_ok() {
+            return Err(format!("could not build base context: {}", o.full_text()));
+        }
+        Ok(s)
+    }
+
     pub fn real_modules(&mut self, light: bool) -> Vec<String> {
         let _ = self.base(light);
         if light {
